@@ -64,7 +64,7 @@ func checkErrorCodeMapping(p *core.Prog, r *core.Report) {
 	fn := p.Func(pkgSvc, "toConnectError")
 	r.Touch(core.FuncName(fn))
 	var asConnect, asInvalid []core.Edge
-	core.Instrs(fn, func(in ssa.Instruction) {
+	core.InstrsDeep(fn, func(in ssa.Instruction) {
 		ifi, ok := in.(*ssa.If)
 		if !ok {
 			return
@@ -398,7 +398,7 @@ func checkStageIndexBound(p *core.Prog, r *core.Report) {
 			return false
 		}
 		var inRange []core.Edge
-		core.Instrs(fn, func(in ssa.Instruction) {
+		core.InstrsDeep(fn, func(in ssa.Instruction) {
 			ifi, ok := in.(*ssa.If)
 			if !ok {
 				return
@@ -453,7 +453,7 @@ func checkOverflowGuards(p *core.Prog, r *core.Report) {
 		return isFld("SegmentSize")(bo.Y)
 	}
 	var safe []core.Edge
-	core.Instrs(val, func(in ssa.Instruction) {
+	core.InstrsDeep(val, func(in ssa.Instruction) {
 		ifi, ok := in.(*ssa.If)
 		if !ok {
 			return
@@ -495,7 +495,7 @@ func checkOverflowGuards(p *core.Prog, r *core.Report) {
 	r.Check(okMul, "C17.R1", "overflow/ProcessRangeRequest.Validate", "(SegmentNumber+1)*SegmentSize cannot wrap around: Validate only succeeds (and only computes the product) behind SegmentNumber < MaxUint64/SegmentSize", fmt.Sprintf("%d products, %d guard edges", len(muls), len(safe)), p.Pos(val.Pos()))
 	// the guard needs SegmentSize != 0 first (division)
 	var nonZero []core.Edge
-	core.Instrs(val, func(in ssa.Instruction) {
+	core.InstrsDeep(val, func(in ssa.Instruction) {
 		ifi, ok := in.(*ssa.If)
 		if !ok {
 			return
@@ -573,7 +573,7 @@ func checkOverflowGuards(p *core.Prog, r *core.Report) {
 			n++
 			// post-check: result < stopBlock → error return; every other use of the sum lies behind the not-wrapped edge
 			var wrapped, fine []core.Edge
-			core.Instrs(h, func(x ssa.Instruction) {
+			core.InstrsDeep(h, func(x ssa.Instruction) {
 				ifi, ok := x.(*ssa.If)
 				if !ok {
 					return
@@ -803,7 +803,7 @@ func checkOptionalMessageDerefs(p *core.Prog, r *core.Report) {
 		}
 		for _, s := range sites {
 			var nonNil []core.Edge
-			core.Instrs(fn, func(in ssa.Instruction) {
+			core.InstrsDeep(fn, func(in ssa.Instruction) {
 				ifi, ok := in.(*ssa.If)
 				if !ok {
 					return
@@ -848,7 +848,7 @@ func checkOptionalMessageDerefs(p *core.Prog, r *core.Report) {
 						break
 					}
 					var cNonNil []core.Edge
-					core.Instrs(caller, func(x ssa.Instruction) {
+					core.InstrsDeep(caller, func(x ssa.Instruction) {
 						ifi, ok := x.(*ssa.If)
 						if !ok {
 							return
